@@ -20,7 +20,7 @@ ID = 'C11'
 LEVEL = 'exploration'
 RULE = ('every (application layout, service permutation, naming channel, name) with name ranging over all registered names and all '
         'near-misses; non-trivial when the request was processed (function ran or fault returned); distinct by the full tuple')
-ASSUMPTIONS = ['HttpPattern routing needs werkzeug, which is not installed: URL-path naming only']
+ASSUMPTIONS = ['HttpPattern: a path matching a pattern address completely (and its verb) runs that method, anything else is named by its last segment']
 FLOOR = {'quick': 3000, 'thorough': 30000}
 TNS = universe.TNS
 I = ['p', 'Integer', {}]
@@ -68,6 +68,124 @@ def collisions():
                                           ('S2', [M('get', 'S2.get', _in_message_name='{urn:vf:beta}get', _out_message_name='{urn:vf:beta}getResponse')])]))
     C.append(('two-operation-names', [('S1', [M('f1', 'S1.f1', _operation_name='op')]), ('S2', [M('f2', 'S2.f2', _operation_name='op')])]))
     return C
+
+
+# ------------------------------------------------------------------ HttpPattern routing
+
+U = ['p', 'Unicode', {}]
+
+
+def pattern_layout():
+    """methods reachable through URL patterns, some of them published under another name than their function's"""
+    def MP(name, key, patterns, args=(), **kw):
+        d = M(name, key, **kw)
+        d['patterns'] = patterns
+        d['args'] = [list(a) for a in args]
+        return d
+    return [('S1', [MP('report', 'S1.report', [{'address': '/v2/report'}], _in_message_name='report_v2', _out_message_name='report_v2Response'),
+                    MP('f1', 'S1.f1', [{'address': '/op/one'}, {'address': '/op/1', 'verb': 'GET'}], _operation_name='op1')]),
+            ('S2', [M('report', 'S2.report'), M('one', 'S2.one'), M('f1x', 'S2.f1x')]),
+            ('S3', [MP('item', 'S3.item', [{'address': '/items/<id>'}], args=[('id', U)]),
+                    MP('items', 'S3.items', [{'address': '/items'}]),
+                    MP('delonly', 'S3.delonly', [{'address': '/submit', 'verb': 'DELETE'}])])]
+
+
+def pattern_regex(address):
+    import re
+    return re.compile(''.join('[^/]*' if part.startswith('<') else re.escape(part) for part in re.split(r'(<[^>]*>)', address)) + r'\Z')
+
+
+def pattern_reference(services, verb, path):
+    """-> key of the function that must run, or None.  Documented semantics: a request whose path matches the address
+    of a pattern completely (and its verb, if the pattern names one) runs that pattern's method; otherwise the last path
+    segment names the method"""
+    import re
+    for sv in services:
+        for m in sv[1]:
+            for p in m.get('patterns') or []:
+                if p.get('verb') and not re.fullmatch(p['verb'], verb):
+                    continue
+                if pattern_regex(p['address']).match(path):
+                    return m['key']
+    last = path.split('/')[-1]
+    for sv in services:
+        for m in sv[1]:
+            if public_name(m) == last:
+                return m['key']
+    return None
+
+
+def pattern_paths(services):
+    out = set()
+    addrs = [p['address'] for sv in services for m in sv[1] for p in m.get('patterns') or []]
+    for a in addrs:
+        inst = a.replace('<id>', '42')
+        out.add(inst)
+        for v in (inst.upper(), inst + '/', inst + 'x', '/x' + inst, inst[:-1], inst + '/extra', '/' + inst, inst.replace('/', '//', 1),
+                  inst.rsplit('/', 1)[0] + '/'):
+            out.add(v)
+        if '<id>' in a:
+            out.add(a.replace('<id>', ''))
+            out.add(a.replace('<id>', 'a/b'))
+    for sv in services:
+        for m in sv[1]:
+            out.add('/' + public_name(m))
+            out.add('/' + m['n'])
+            out.add('/zz/' + public_name(m))
+    return sorted(x for x in out if x.startswith('/'))
+
+
+def run_patterns(shard, res, only):
+    from spyne.server.wsgi import WsgiApplication
+    services = pattern_layout()
+    paths = pattern_paths(services)
+    for perm in itertools.permutations(range(len(services))):
+        svs = [services[i] for i in perm]
+        try:
+            b = spec.build(program_of(svs))
+            app = spec.make_app(b, harness.make_proto('http'), harness.make_proto('http'))
+            wsgi = WsgiApplication(app)
+        except Exception as e:
+            res['violations'].append({'sig': 'C11|build|patterns|%s' % type(e).__name__, 'what': 'application with HttpPatterns cannot be built: %r' % (e,),
+                                      'case': {'shard': shard, 'only': ['build', list(perm)]}, 'count': 1})
+            continue
+        res['cov']['programs'] += 1
+        res['cov']['permutations'] += 1
+        for verb in ('GET', 'DELETE'):   # (POST / PUT / PATCH bodies are parsed with werkzeug, which is not installed)
+            for path in paths:
+                key = [list(perm), verb, path]
+                if only is not None and only != key:
+                    continue
+                want = pattern_reference(svs, verb, path)
+                b.rec.reset()
+                for k in b.methods:
+                    b.rec.script[k] = ('ret', 1)
+                # (form bodies need werkzeug, which is not installed: POST requests carry no body and no content type)
+                env = drv.environ(verb, path, '', b'', content_type=None, content_length=None if verb == 'GET' else 0)
+                o = drv.call_wsgi(wsgi, env)
+                calls = [c[0] for c in b.rec.calls]
+                res['evaluations'] += 1
+                casedoc = {'shard': shard, 'only': key}
+
+                def V(kind, detail, what):
+                    res['violations'].append({'sig': 'C11|%s|http-pattern|%s' % (kind, detail),
+                                              'what': '[HttpPattern routing, perm=%s] %s %s: %s' % (list(perm), verb, path, what), 'case': casedoc, 'count': 1})
+                if o.escaped is not None:
+                    V('escape', '%s@%s' % (type(o.escaped).__name__, o.escaped_where), 'exception escaped: %r' % (o.escaped,))
+                    continue
+                res['nontrivial'] += 1
+                if want is not None:
+                    if calls != [want]:
+                        V('wrong-function', 'expected:%s' % want, 'expected exactly [%s] to run, ran %s (status %s)' % (want, calls, o.status))
+                    else:
+                        res['outcomes']['pattern-dispatched'] = res['outcomes'].get('pattern-dispatched', 0) + 1
+                else:
+                    if calls:
+                        V('near-miss-ran', 'pattern', 'no pattern and no method name matches, yet %s ran' % calls)
+                    elif (o.status or '')[:3] != '404':
+                        V('not-found-status', (o.status or '')[:3], 'HTTP status %s for a path that matches nothing' % o.status)
+                    else:
+                        res['outcomes']['pattern-not-found'] = res['outcomes'].get('pattern-not-found', 0) + 1
 
 
 def public_name(m):
@@ -151,6 +269,7 @@ def shards(tier):
         for ch in CHANNELS:
             out.append({'kind': 'layout', 'li': li, 'channel': ch, 'tier': tier})
     out.append({'kind': 'collisions', 'tier': tier})
+    out.append({'kind': 'patterns', 'tier': tier})
     return out
 
 
@@ -203,6 +322,10 @@ def run_shard(shard, only=None):
                                           'what': 'application with two methods answering to the same name was constructed: %s' % cid,
                                           'case': {'shard': shard, 'only': key}, 'count': 1})
         return res
+    if shard['kind'] == 'patterns':
+        run_patterns(shard, res, only)
+        from vf.props.c01 import compress
+        return compress(res)
     lid, services = layouts(tier)[shard['li']]
     channel = shard['channel']
     registered, auxes = {}, {}
